@@ -220,6 +220,44 @@ theorem graph_as_dataset_view (hs : L.Inv s) (h3 : I.n = 3) :
     intro q hq
     exact hall q hq
 
+/-- **pattern queries through a view = filtering the UNDERLYING STORE** (the property's clause, in one
+statement per view): the triples of the quads whose graph name the view selects and whose triple matches -/
+theorem view_query_store (L : LawfulRead I) {s : σ} (hs : L.Inv s) (h4 : I.n = 4) (sm pm om : TM) :
+    (UnionGraph.triplesMatching I s sm pm om).Perm
+      (((I.quads s).filter (Spec.tripleMatched sm pm om)).map intoTriple) ∧
+    (∀ m : GM, (PartialUnionGraph.triplesMatching I s m sm pm om).Perm
+      (((I.quads s).filter (fun q => m.matches q.g && Spec.tripleMatched sm pm om q)).map intoTriple)) ∧
+    (∀ g : GName, (DatasetGraph.triplesMatching I s g sm pm om).Perm
+      (((I.quads s).filter (fun q => gnameEq g q.g && Spec.tripleMatched sm pm om q)).map intoTriple)) := by
+  have key : ∀ gm : GM, ((I.quadsMatching s (dpat gm sm pm om)).map intoTriple).Perm
+      (((I.quads s).filter (fun q => gm.matches q.g && Spec.tripleMatched sm pm om q)).map intoTriple) := by
+    intro gm
+    have h := (L.qm (dpat gm sm pm om) hs).map intoTriple
+    rw [h4] at h
+    refine h.trans (List.Perm.of_eq ?_)
+    congr 1
+    exact filter_congr_fun _ (fun q => quadMatched_dpat gm sm pm om q)
+  refine ⟨(key .any).trans (List.Perm.of_eq ?_), key, fun g => (key (.arr [g])).trans (List.Perm.of_eq ?_)⟩
+  · congr 1
+  · congr 1
+    exact filter_congr_fun _ (fun q => by rw [arr1_matches])
+
+/-- the same for a graph seen as a dataset: the graph's matching triples, in the default graph, when the
+graph-name matcher accepts the default graph — nothing otherwise -/
+theorem as_dataset_query_store (L : LawfulRead I) {s : σ} (hs : L.Inv s) (h3 : I.n = 3) (sm pm om : TM) (gm : GM) :
+    (GraphAsDataset.quadsMatching I s sm pm om gm).Perm
+      (if gm.matches none then ((I.quads s).filter (Spec.tripleMatched sm pm om)).map intoQuad else []) := by
+  unfold GraphAsDataset.quadsMatching
+  cases gm.matches none with
+  | false => exact List.Perm.refl _
+  | true =>
+    simp only [if_true]
+    have h := (L.qm (gpat sm pm om) hs).map intoQuad
+    rw [h3] at h
+    refine h.trans (List.Perm.of_eq ?_)
+    congr 1
+    exact filter_congr_fun _ (fun q => quadMatched_gpat sm pm om q)
+
 /-! ### `UnionGraph`'s enumerations -/
 
 /-- `subjects` / `predicates` / `objects` of the union graph are those of its triples -/
@@ -603,6 +641,18 @@ theorem as_dataset_mut_insert_flag_now (L : LawfulSet I) {s : σ}
 
 end now
 
+/-- **the reference forwarding impls are the identity**: every method of `impl Dataset for &T`, `impl Dataset for
+&mut T`, `impl Graph for &T`, `impl Graph for &mut T`, `impl MutableDataset for &mut T`, `impl MutableGraph for
+&mut T` recorded from the source (`Gen/ViewGlue.lean`, 58 methods) calls the same method of `T` with its own
+parameters — which is how the model treats the `&D` / `&mut D` / `&G` / `&mut G` inside the views -/
+theorem ref_forwarding_identity : refForwardOK Gen.ViewGlue.refForward = true := by
+  decide
+
+/-- **the default bulk methods are the transcribed ones**: the twelve default bodies of the `Mutable*` traits
+that `Adapter.Defaults` models are still the transcribed text -/
+theorem default_bulk_transcribed : defaultBulkOK Gen.ViewGlue.defaultBulk = true := by
+  decide
+
 /-- **Removing through `as_dataset_mut()`, unconditionally for the current source** -/
 theorem as_dataset_mut_remove_now : AsDatasetMutRemoveSpec :=
   as_dataset_mut_remove forwarding_flags_now.2.2.2.1
@@ -903,6 +953,72 @@ theorem run_views_coherent_store_types (ops : List GOp) :
   · exact run_views_coherent (setLawful 4 (Or.inr rfl)) rfl ops
       (show SetInv 4 [] from ⟨trivial, fun _ _ h => nomatch h⟩) (SameSet.refl _) hok
 
+/-- **no operation of a history fails** on a store whose `insert` never fails -/
+theorem step_views_ok (L : LawfulSet I) (h4 : I.n = 4) (hne : NoErr I) {s : σ} (hs : L.Inv s) (op : GOp) :
+    (stepG I s op).2 = true := by
+  cases op with
+  | ins q =>
+    show (I.insert s q).2.isSome = true
+    cases h : (I.insert s q).2 with
+    | none => exact absurd h (hne s q)
+    | some b => rfl
+  | rem q => rfl
+  | vIns g t =>
+    show resOk (DatasetGraph.insert I s g t).2 = true
+    have h : DatasetGraph.insert I s g t = _ := dg_insIs (I := I) forwarding_flags_now.1 g s t
+    rw [h]
+    cases h2 : (I.insert s (withG g t)).2 with
+    | none => exact absurd h2 (hne s _)
+    | some b => rfl
+  | vRem g t =>
+    show resOk (DatasetGraph.remove I s g t).2 = true
+    have h : DatasetGraph.remove I s g t = _ := dg_remIs (I := I) forwarding_flags_now.2.1 g s t
+    rw [h]; rfl
+  | vInsAll g ts => exact insertAll_noErr (dg_insIs (I := I) forwarding_flags_now.1 g) hne ts s 0
+  | vRemAll g ts =>
+    obtain ⟨s', c, he, _⟩ := view_remove_all L.toLawful hs h4 g ts
+    show bulkOk (DatasetGraph.removeAll I s g ts).2 = true
+    rw [he]; rfl
+  | vRemM g sm pm om =>
+    obtain ⟨s', c, he, _⟩ := view_remove_matching L.toLawful hs h4 g sm pm om
+    show bulkOk (DatasetGraph.removeMatching I s g sm pm om).2 = true
+    rw [he]; rfl
+  | vRetM g sm pm om =>
+    obtain ⟨s', c, he, _⟩ := view_retain_matching L.toLawful hs h4 g sm pm om
+    show bulkOk (DatasetGraph.retainMatching I s g sm pm om).2 = true
+    rw [he]; rfl
+
+theorem run_views_ok (L : LawfulSet I) (h4 : I.n = 4) (hne : NoErr I) :
+    ∀ (ops : List GOp) {s : σ}, L.Inv s → (runG I s ops).2 = true
+  | [], _, _ => rfl
+  | op :: ops, s, hs => by
+    have hstep := step_views_ok L h4 hne hs op
+    have hrun : runG I s (op :: ops) =
+        if (stepG I s op).2 then runG I (stepG I s op).1 ops else ((stepG I s op).1, false) := rfl
+    rw [hrun, hstep]
+    simp only [if_true]
+    exact run_views_ok L h4 hne ops (step_views L h4 hs (SameSet.refl _) op hstep).1
+
+/-- **Coherence over ALL histories on std `HashSet` / `BTreeSet` of quads, unconditionally** -/
+theorem run_views_coherent_set (ops : List GOp) :
+    (runG (setImpl 4) [] ops).2 = true ∧ SetInv 4 (runG (setImpl 4) [] ops).1 ∧
+      SameSet (runG (setImpl 4) [] ops).1 (ops.foldl specG []) := by
+  have h0 : SetInv 4 [] := ⟨trivial, fun _ _ h => nomatch h⟩
+  have hok := run_views_ok (setLawful 4 (Or.inr rfl)) rfl (setImpl_noErr 4) ops h0
+  exact ⟨hok, run_views_coherent (setLawful 4 (Or.inr rfl)) rfl ops h0 (SameSet.refl _) hok⟩
+
+/-- **the no-error hypothesis of `run_views_coherent` is necessary**: on an indexed store whose term index
+is full (here: room for one term) the insertion through the view fails and the store does NOT hold what the
+plain-list specification holds -/
+theorem run_views_ok_necessary :
+    let t : Quad := ⟨.iri "x:s".toList, .iri "x:p".toList, .iri "x:o".toList, none⟩
+    let g : GName := some (.iri "x:g".toList)
+    let I := storeImpl Gen.genericLightDataset
+    let s0 := St.new Gen.genericLightDataset.shape 1
+    (runG I s0 [.vIns g t]).2 = false ∧
+      qmem (withG g t) (I.quads (runG I s0 [.vIns g t]).1) ≠ qmem (withG g t) ([GOp.vIns g t].foldl specG []) := by
+  decide
+
 -- non-vacuity of `run_views_coherent`: a history through views of a `HashSet` of quads — the same triple in
 -- two graphs, `retain_matching` through the view of one of them (which must NOT empty the other one),
 -- `remove_matching` through the view of an absent graph
@@ -961,6 +1077,62 @@ example :
     let I := vecFirstImpl 4
     let s := (DatasetGraph.remove I [⟨t.s, t.p, t.o, g⟩, t, ⟨t.s, t.p, t.o, g⟩] g t).1
     DatasetGraph.triples I s g = [t] ∧ UnionGraph.triples I s = [t, t] ∧ DatasetGraph.contains I s none t = true := by
+  decide
+
+/-! ### vectors: what a mutation through a view does to the copies of each quad -/
+
+/-- the vectors are lawful bags: `Vec<Spog<T>>` / `Vec<[T; 3]>` (remove drops every copy) and `Vec<Gspo<T>>`
+(remove drops the first copy) -/
+theorem vec_types_lawful_bag :
+    (∀ n, n = 3 ∨ n = 4 → ∃ L : LawfulBag (vecImpl n), ∀ s, L.Inv s ↔ (n = 3 → ∀ x ∈ s, x.g = none)) ∧
+    (∃ L : LawfulBag (vecFirstImpl 4), ∀ s, L.Inv s) :=
+  ⟨fun n hn => ⟨vecLawfulBag n hn, fun _ => Iff.rfl⟩,
+   ⟨vecFirstLawfulBag 4 (Or.inr rfl), fun _ h => absurd h (by decide)⟩⟩
+
+/-- **Mutations through `graph_mut(g)` on a vector of quads** (multiplicities matter, flags "not
+significant"): same state and result as the direct `insert` / `remove(s, p, o, g)`; every quad other than
+`(s, p, o, g)` — in particular every quad of another graph — keeps ALL its copies; an insertion leaves at
+least one copy of the quad and loses none, a removal of a present quad loses at least one copy -/
+theorem view_mut_bag {σ : Type} {I : Impl σ} (L : LawfulBag I) {s : σ} (hs : L.Inv s) (h4 : I.n = 4) (g : GName) (t : Quad) :
+    let q := withG g t
+    (DatasetGraph.insert I s g t).1 = (I.insert s q).1 ∧
+    (DatasetGraph.insert I s g t).2 = MutRes.ofOption (I.insert s q).2 ∧
+    (DatasetGraph.remove I s g t).1 = (I.remove s q).1 ∧
+    (DatasetGraph.remove I s g t).2 = .ok (I.remove s q).2 ∧
+    L.Inv (DatasetGraph.insert I s g t).1 ∧ L.Inv (DatasetGraph.remove I s g t).1 ∧
+    (∀ x : Quad, quadEq q x = false →
+      mult x (I.quads (DatasetGraph.insert I s g t).1) = mult x (I.quads s) ∧
+      mult x (I.quads (DatasetGraph.remove I s g t).1) = mult x (I.quads s)) ∧
+    (∀ x : Quad, gnameEq g x.g = false →
+      mult x (I.quads (DatasetGraph.insert I s g t).1) = mult x (I.quads s) ∧
+      mult x (I.quads (DatasetGraph.remove I s g t).1) = mult x (I.quads s)) ∧
+    (1 ≤ mult q (I.quads (DatasetGraph.insert I s g t).1) ∧
+      mult q (I.quads s) ≤ mult q (I.quads (DatasetGraph.insert I s g t).1)) ∧
+    (mult q (I.quads (DatasetGraph.remove I s g t).1) < mult q (I.quads s) ∨
+      (mult q (I.quads s) = 0 ∧ mult q (I.quads (DatasetGraph.remove I s g t).1) = 0)) := by
+  intro q
+  have hi : DatasetGraph.insert I s g t = ((I.insert s q).1, MutRes.ofOption (I.insert s q).2) :=
+    dg_insIs (I := I) forwarding_flags_now.1 g s t
+  have hr : DatasetGraph.remove I s g t = ((I.remove s q).1, .ok (I.remove s q).2) :=
+    dg_remIs (I := I) forwarding_flags_now.2.1 g s t
+  rw [hi, hr]
+  have hoth : ∀ x : Quad, quadEq q x = false →
+      mult x (I.quads (I.insert s q).1) = mult x (I.quads s) ∧ mult x (I.quads (I.remove s q).1) = mult x (I.quads s) :=
+    fun x hx => ⟨L.ins_others q x hs hx, L.rem_others q x hs hx⟩
+  refine ⟨rfl, rfl, rfl, rfl, L.ins_inv q hs (fun h3 => by omega), L.rem_inv q hs, hoth, ?_, L.ins_self q hs, L.rem_self q hs⟩
+  intro x hx
+  refine hoth x ?_
+  simp [quadEq, q, withG, hx]
+
+-- non-vacuity: `Vec<Gspo<T>>` holding a quad twice in `x:g` and once in the default graph; removing through
+-- the view of `x:g` drops ONE copy there and none in the default graph
+example :
+    let t : Quad := ⟨.iri "x:s".toList, .iri "x:p".toList, .iri "x:o".toList, none⟩
+    let g : GName := some (.iri "x:g".toList)
+    let d : List Quad := [withG g t, t, withG g t]
+    mult (withG g t) ((DatasetGraph.remove (vecFirstImpl 4) d g t).1) = 1 ∧
+      mult t ((DatasetGraph.remove (vecFirstImpl 4) d g t).1) = 1 ∧
+      mult (withG g t) ((DatasetGraph.remove (vecImpl 4) d g t).1) = 0 := by
   decide
 
 end SophiaProofs.C11
